@@ -7,7 +7,6 @@ import (
 	"os"
 	"os/exec"
 	"path/filepath"
-	"runtime"
 	"sort"
 	"strings"
 	"sync"
@@ -230,7 +229,7 @@ func (m *monitor) runKills() {
 	errs := make([]error, len(cases))
 	var wg sync.WaitGroup
 	ch := make(chan int)
-	for w := 0; w < runtime.GOMAXPROCS(0); w++ {
+	for w := 0; w < par(); w++ {
 		wg.Add(1)
 		go func(w int) {
 			defer wg.Done()
@@ -308,10 +307,13 @@ func (m *monitor) runRandomKills(base string) {
 	}
 	outs := make([]chainOut, chains)
 	var wg sync.WaitGroup
+	sem := make(chan struct{}, par())
 	for ci := 0; ci < chains; ci++ {
 		wg.Add(1)
 		go func(ci int) {
 			defer wg.Done()
+			sem <- struct{}{}
+			defer func() { <-sem }()
 			rng := r.Rand("b-random", ci)
 			dir := filepath.Join(base, fmt.Sprintf("r%d", ci))
 			cdir := filepath.Join(dir, "cache")
